@@ -211,6 +211,11 @@ func (r *RowCache) rowsByModels(models []model.Model, useClientIndexes bool) (ma
 				// first client index
 				break
 			}
+			if !hasIndexData(info, indexSpec.columns) {
+				// none of the index fields is populated in the model, it
+				// cannot stand for a row through this index
+				continue
+			}
 			val, err := valueFromIndex(info, indexSpec.columns)
 			if err != nil {
 				continue
@@ -1339,6 +1344,29 @@ func (t *TableCache) ApplyCacheUpdate(update cacheUpdate) error {
 		tCache.refreshSchemaIndexes()
 	}
 	return nil
+}
+
+// hasIndexData returns whether the model holds a value other than the default
+// in at least one of the columns (or map keys) of an index
+func hasIndexData(info *mapper.Info, columnKeys []model.ColumnKey) bool {
+	for _, columnKey := range columnKeys {
+		field, err := info.FieldByColumn(columnKey.Column)
+		if err != nil {
+			continue
+		}
+		if columnKey.Key != nil {
+			m := reflect.ValueOf(field)
+			if m.Kind() == reflect.Map && m.MapIndex(reflect.ValueOf(columnKey.Key)).IsValid() {
+				return true
+			}
+			continue
+		}
+		column := info.Metadata.TableSchema.Column(columnKey.Column)
+		if column != nil && !ovsdb.IsDefaultValue(column, field) {
+			return true
+		}
+	}
+	return false
 }
 
 func valueFromIndex(info *mapper.Info, columnKeys []model.ColumnKey) (interface{}, error) {
